@@ -311,6 +311,51 @@ def enumerateGo {α} : Int → List α → List (Int × α)
   | _, [] => []
   | i, x :: xs => (i, x) :: enumerateGo (i + 1) xs
 
+/-- a message value of any of the types the library accepts -/
+inductive AnyVal
+  | str (t : Text)
+  | int (i : Int)
+  | dec (d : Dec)
+  | dt (d : DateTime)
+  | bytes (b : Bytes)
+  deriving Repr
+
+/-- a finite Decimal whose coefficient is zero (`Decimal('0')`, `Decimal('-0.00')`, `Decimal('0E+5')`): the only
+    Decimals that are false, and the only ones equal to 0 -/
+def decIsZero (d : Dec) : Bool :=
+  match d.exp with
+  | .fin _ => d.digits.all (· == 0)
+  | _ => false
+
+/-- `d.get(k)`: None when absent -/
+def dictGetOpt {β} (d : SDict β) (k : Text) : Option β := (d.find? (·.1 == k)).map (·.2)
+
+/-- truthiness of `d.get(k)`: None, '', b'', 0 and Decimal zero are false -/
+def truthyOpt : Option AnyVal → Bool
+  | none => false
+  | some (.str t) => !t.isEmpty
+  | some (.bytes b) => !b.isEmpty
+  | some (.int i) => i != 0
+  | some (.dec d) => !decIsZero d
+  | some (.dt _) => true
+
+/-- `d.get(k) == 0` -/
+def eqZeroOpt : Option AnyVal → Bool
+  | some (.int i) => i == 0
+  | some (.dec d) => decIsZero d
+  | _ => false
+
+/-- `v.encode(encoding)` for a value of any type: only `str` has the method -/
+def anyEncode (enc : Text → Outcome Bytes) : AnyVal → Outcome Bytes
+  | .str t => enc t
+  | _ => .escape .other      -- AttributeError
+
+/-- `l[i] = v`: IndexError outside `-len..len-1` -/
+def setItem {α} (l : List α) (i : Int) (v : α) : Outcome (List α) :=
+  let j : Int := if i < 0 then (l.length : Int) + i else i
+  if j < 0 then .escape .indexError
+  else if j.toNat < l.length then .ok (l.set j.toNat v) else .escape .indexError
+
 /-- `range(a, b)` -/
 def range (a b : Int) : List Int := (List.range (b - a).toNat).map (fun (i : Nat) => a + (i : Int))
 
